@@ -12,7 +12,12 @@ def term_calls(term, pattern):
     if term.op != "call":
         return False
     r = rx(pattern)
-    return bool((term.callee and r.search(term.callee)) or (term.declared and r.search(term.declared)))
+    # callee / declared are canonical ids when the callee's crate is loaded; the names rustc printed (possibly
+    # through a re-export) are kept in the raw record - a pattern may use either spelling
+    for n in (term.callee, term.declared, term.j.get("res"), term.j.get("fn")):
+        if n and r.search(n):
+            return True
+    return False
 
 
 def blk_calls(blk, pattern):
